@@ -70,7 +70,7 @@ def _smooth(rng, n):
 
 def points_family(rng, fam=None, n=None):
     fams = ['smooth', 'noisy', 'polyline', 'zigzag', 'walk', 'collinear', 'collinear-shuffled', 'int', 'int-small', 'consecutive-repeats',
-            'revisits', 'closed', 'closed-smooth', 'hash-pairs', 'two', 'three', 'big', 'tiny']
+            'revisits', 'closed', 'closed-smooth', 'hash-pairs', 'near-equal', 'two', 'three', 'big', 'tiny']
     fam = fam or rng.choice(fams)
     n = n or rng.choice([2, 3, 3, 4, 5, 6, 8, 10, 13, 17, 24, 30, 40, 59, 60, rng.randint(2, 60)])
     if fam == 'two': n = 2
@@ -114,6 +114,10 @@ def points_family(rng, fam=None, n=None):
         m = max(3, n)
         pts = [(a * math.cos(ph + 2 * math.pi * i / (m - 1)), b * math.sin(ph + 2 * math.pi * i / (m - 1))) for i in range(m - 1)]
         pts.append(pts[0])
+    elif fam == 'near-equal':   # adjacent points that are distinct but equal under Point.__eq__ (1e-9 relative), in particular the last two
+        pts = [(rng.uniform(50, 500), rng.uniform(50, 500)) for _ in range(max(2, n - 1))]
+        j = rng.choice([len(pts) - 1, len(pts) - 1, rng.randrange(len(pts))])
+        pts.insert(j + 1, (pts[j][0] * (1 + rng.choice([1e-10, -2e-10, 5e-11])), pts[j][1] * (1 + rng.choice([1e-10, 0.0]))))
     elif fam == 'hash-pairs':   # hash(-1.0) == hash(-2.0): adjacent points differing only by -1 <-> -2
         pts = [(float(rng.choice([-1, -2, -1, -2, 0, 3])), float(rng.choice([-1, -2, 5]))) for _ in range(n)]
     elif fam in ('big', 'tiny'): pts = gen.coords(rng, fam, n)      # +-1e6 and +-1e-3: the framework's float ranges
